@@ -33,7 +33,11 @@ impl Visitor<Print> for PrintLinter {
         for print_arg in &print.args {
             if let PrintArg::Expression(expr_pos) = print_arg {
                 let type_definition = expr_pos.expression_type();
-                if let ExpressionType::UserDefined(_) = type_definition {
+                // only values of the built-in types can be printed (not records or entire arrays)
+                if matches!(
+                    type_definition,
+                    ExpressionType::UserDefined(_) | ExpressionType::Array(_)
+                ) {
                     return Err(LintError::TypeMismatch.at(expr_pos));
                 }
             }
